@@ -210,3 +210,14 @@ func sortedFuncs(m map[*ssa.Function]bool) []*ssa.Function {
 	sort.Slice(out, func(i, j int) bool { return core.FuncName(out[i]) < core.FuncName(out[j]) })
 	return out
 }
+
+// shortFuncName: the canonical method or function name without its receiver.
+func shortFuncName(fn *ssa.Function) string {
+	n := core.FuncName(fn)
+	for k := len(n) - 1; k >= 0; k-- {
+		if n[k] == '.' {
+			return n[k+1:]
+		}
+	}
+	return n
+}
